@@ -198,6 +198,52 @@ def search(case, trials=30, seed=0):
     return None
 
 
+def expected_combined(env, note, c):
+    """value from the vertices of component c of a combined case (vector of atoms / weighted sum in a form)"""
+    def one(a):
+        qn, comp = a
+        comp = tuple(comp)
+        return float(expected(env, qn, comp if len(comp) != 1 else comp[0]))
+    if note["q"] == "combined-form":
+        return sum(w * one(a) for w, a in zip(note["weights"], note["atoms"]))
+    return one(note["atoms"][c[0]])
+
+
+def search_combined(case, lemma, trials=30, seed=0):
+    """Failing input for a combined case: a simplex (and facet/ridge) on which the jointly lowered expression
+    differs from the quantities computed from the vertices."""
+    import re
+    note = case.note
+    m = re.search(r"_c(\d+)$", lemma or "")
+    comps = [(int(m.group(1)),)] if (m and note["q"] == "combined") else case.components()
+    rng = random.Random(seed * 7919 + 17)
+    t = note["tdim"]
+    for k in range(trials):
+        env = GeoEnv(t, note["gdim"], rng.randrange(t + 1), rng.randrange(6), rng.randrange(10**9))
+        P = np.array([[float(x) for x in v] for v in env.V])
+        if abs(pdet((P[1:] - P[0]).T)) < 1e-3:
+            continue
+        for c in comps:
+            try:
+                got = complex(pyden.evaluate(case.out, env, {}, c).value())
+                exp = expected_combined(env, note, c)
+            except (ZeroDivisionError, ValueError, OverflowError, np.linalg.LinAlgError):
+                continue
+            except (pyden.Unsupported, KeyError):
+                return None
+            if abs(got.imag) > 1e-12 or got != got or abs(got.real - exp) > 1e-7 * (1 + abs(got) + abs(exp)):
+                what = note["atoms"][c[0]] if note["q"] == "combined" else "weighted sum of all quantities"
+                return {"quantity": "combined", "atom": what, "order": note.get("order", note.get("measure")),
+                        "tdim": t, "gdim": note["gdim"], "facet": env.f, "ridge": env.r, "component": list(c),
+                        "vertices": [[str(x) for x in v] for v in env.V],
+                        "reference_point_X": [str(x) for x in env.X], "cell_orientation": env.co,
+                        "value_of_lowered_expression": str(got.real if abs(got.imag) < 1e-12 else got),
+                        "value_from_vertices": exp, "trial": k,
+                        "input": "apply_geometry_lowering of ONE expression containing all quantities of the cell "
+                                 "(see note.order / the case name); the atom above is the wrong one"}
+    return None
+
+
 def replay_witness(case, w):
     """Re-evaluate the lowered expression of `case` on the witness simplex of a replay file."""
     env = GeoEnv(w["tdim"], w["gdim"], w["facet"], w["ridge"], 0)
@@ -206,7 +252,10 @@ def replay_witness(case, w):
     env.co = int(w["cell_orientation"])
     c = tuple(w["component"])
     got = complex(pyden.evaluate(case.out, env, {}, c).value())
-    exp = float(expected(env, w["quantity"], c if len(c) != 1 else c[0]))
+    if w["quantity"] == "combined":
+        exp = expected_combined(env, case.note, c)
+    else:
+        exp = float(expected(env, w["quantity"], c if len(c) != 1 else c[0]))
     ok = abs(got.imag) < 1e-12 and abs(got.real - exp) <= 1e-7 * (1 + abs(got) + abs(exp))
     return got, exp, ok
 
